@@ -135,6 +135,20 @@ def _discharge(F, f, b, par, kind, x, text):
     t = _table(root, kind, text)
     if t:
         return "table: " + t
+    if root == "common::utils::decode_var_int" and kind in ("Shl", "Add", "AddAssign", "Mul", "MulAssign", "ShlAssign"):
+        # counters and shift amounts of the reader depend on the iteration count only; V-reader's evaluation runs every
+        # iteration count the loop can make (1..4 bytes, and the over-long case) and PE records arithmetic that leaves its type
+        amount = x["r"]
+        dep = any(y.get("k") in ("Var", "Upvar") and y["var"]["name"] == "byte" for y in walk_all(amount))
+        if kind in ("Add", "Mul"):
+            dep = dep or any(y.get("k") in ("Var", "Upvar") and y["var"]["name"] == "byte" for y in walk_all(x["l"]))
+        if not dep:
+            try:
+                from r_pollpe import reader_arith_events
+                if not reader_arith_events(F):
+                    return "G-eval: iteration-count arithmetic of decode_var_int, in range on all five evaluated byte patterns (V-reader)"
+            except Exception:
+                pass
     if kind in ("Add", "AddAssign", "Mul"):
         ty = x.get("ty") if kind != "AddAssign" else (strip(x["l"]).get("ty") or "")
         if kind == "AddAssign":
@@ -579,7 +593,7 @@ def _bounded(F, e, b, f, depth=0, seen=()):
         tail = unblock(cb)
         okk, why = _bounded(F, tail, cb, cf, depth + 1, seen + (("call", cid),)) if ("call", cid) not in seen else (True, "recursive")
         return okk, "%s: %s" % (cid, why)
-    if k == "Var":
+    if k in ("Var", "Upvar"):
         vid = e["var"]["id"]
         if (f["id"], vid) in seen:
             return True, "the variable itself, decreased"
@@ -671,6 +685,30 @@ def _all_tails_bounded(F, init, idx, b, f, depth, seen):
     for t in tails:
         if idx is not None:
             t = unblock(strip(t))
+            t0 = t
+            while t0.get("k") in ("Try", "Await"):
+                t0 = unblock(strip(t0["e"]))
+            cid = (t0["fn"].get("res") or t0["fn"].get("def")) if t0.get("k") == "Call" else None
+            if t.get("k") != "Tuple" and cid in F.fns and F.fns[cid].get("thir") and ("call", cid) not in seen and depth < 12:
+                # `let (x, rest) = helper(..).await?;`: the component of every tuple the helper returns, in the helper's own context
+                cf = F.fns[cid]
+                cb = nbody(F, cid)
+                results = _tails(cb) + [r["e"] for r in walk_all(cb) if r.get("k") == "Return" and r.get("e") is not None]
+                if not results:
+                    return False, "%s returns no value" % cid
+                for r in results:
+                    for r2 in _tails(r):
+                        r2 = unblock(strip(r2))
+                        if r2.get("k") == "Adt" and r2.get("variant") in ("Ok", "Some") and r2.get("fields"):
+                            r2 = unblock(strip(r2["fields"][0]["e"]))
+                        if r2.get("k") == "Adt" and r2.get("variant") in ("Err", "None"):
+                            continue
+                        if r2.get("k") != "Tuple" or idx >= len(r2["items"]):
+                            return False, "`%s` (returned by %s) is not a tuple value" % (pp(r2)[:60], cid)
+                        okk, why = _bounded(F, r2["items"][idx], cb, cf, depth + 1, seen + (("call", cid),))
+                        if not okk:
+                            return False, "%s: %s" % (cid, why)
+                continue
             if t.get("k") != "Tuple" or idx >= len(t["items"]):
                 return False, "`%s` is not a tuple value" % pp(t)[:60]
             t = t["items"][idx]
